@@ -1,4 +1,4 @@
-\* deviations on = BareAddressMinusRejected   (template: harness/props/c04.notes.md)
+\* deviations on = SwapReassocClobbers   (template: harness/props/c04.notes.md)
 SPECIFICATION Spec
 CONSTANTS
   Real = FALSE
@@ -12,7 +12,7 @@ CONSTANTS
   Dev_UnevaluatedOperandFolded = FALSE
   Dev_NoDivisionGuard = FALSE
   Dev_CondSameTypeNoPromotion = FALSE
-  Dev_BareAddressMinusRejected = TRUE
-  Dev_SwapReassocClobbers = FALSE
+  Dev_BareAddressMinusRejected = FALSE
+  Dev_SwapReassocClobbers = TRUE
 INVARIANTS Inv_Refines
 CHECK_DEADLOCK FALSE
